@@ -77,12 +77,18 @@ theorem Interval_intersectsPoint_iff (b : Interval α) (p : α) : Gen.Interval.i
   Interval.intersectsPoint_iff b p
 
 /-- `intersects(box)` is symmetric -/
-theorem Interval_intersectsBox_symm (a b : Interval α) : Gen.Interval.intersectsBox a b = Gen.Interval.intersectsBox b a := by
-  rw [Bool.eq_iff_iff, Interval.intersectsBox_iff_axes, Interval.intersectsBox_iff_axes]; tauto
+theorem Interval_intersectsBox_symm (a b : Interval α) : Gen.Interval.intersectsBox a b = Gen.Interval.intersectsBox b a :=
+  Interval.intersectsBox_symm a b
 
 /-- boxes sharing a point intersect (any boxes) -/
 theorem Interval_intersectsBox_of_common_point (a b : Interval α) (h : ∃ p, Interval.Mem p a ∧ Interval.Mem p b) :
     Gen.Interval.intersectsBox a b = true := Interval.intersectsBox_of_common a b h
+
+/-- what `intersects(box)` computes for ALL boxes (the code as it is: no emptiness test): per-axis overlap of the
+min/max pairs.  [This statement describes the defect below; it stops holding when the code is repaired.] -/
+theorem Interval_intersectsBox_iff_axes (a b : Interval α) :
+    Gen.Interval.intersectsBox a b = true ↔ (b.min ≤ a.max ∧ a.min ≤ b.max) := by
+  simp only [Gen.Interval.intersectsBox, ite_false_iff, ite_false'_iff, not_lt, not_le, and_assoc, and_true] <;> tauto
 
 /- FULL STRENGTH (property text: "true exactly when the two sets share a point"):
      ∀ a b, Gen.Interval.intersectsBox a b = true ↔ ∃ p, Interval.Mem p a ∧ Interval.Mem p b
@@ -91,7 +97,7 @@ theorem Interval_intersectsBox_of_common_point (a b : Interval α) (h : ∃ p, I
    Proved: the statement for non-empty boxes (`_partial`) and the exact region where the code is wrong. -/
 theorem Interval_intersectsBox_iff_partial (a b : Interval α) (ha : ¬ Interval.Inverted a) (hb : ¬ Interval.Inverted b) :
     Gen.Interval.intersectsBox a b = true ↔ ∃ p, Interval.Mem p a ∧ Interval.Mem p b :=
-  ⟨fun h => Interval.common_of_axes a b ha hb ((Interval.intersectsBox_iff_axes a b).1 h), Interval.intersectsBox_of_common a b⟩
+  ⟨fun h => Interval.common_of_axes a b ha hb ((Interval.intersectsBox_iff_axes_of_nonempty a b ha hb).1 h), Interval.intersectsBox_of_common a b⟩
 
 /-- exactly when `intersects(box)` answers `true` although the sets are disjoint: the min/max pairs
 overlap on every axis and one of the boxes is empty -/
@@ -244,12 +250,18 @@ theorem Box2_intersectsPoint_iff (b : Box2 α) (p : V2 α) : Gen.Box2.intersects
   Box2.intersectsPoint_iff b p
 
 /-- `intersects(box)` is symmetric -/
-theorem Box2_intersectsBox_symm (a b : Box2 α) : Gen.Box2.intersectsBox a b = Gen.Box2.intersectsBox b a := by
-  rw [Bool.eq_iff_iff, Box2.intersectsBox_iff_axes, Box2.intersectsBox_iff_axes]; tauto
+theorem Box2_intersectsBox_symm (a b : Box2 α) : Gen.Box2.intersectsBox a b = Gen.Box2.intersectsBox b a :=
+  Box2.intersectsBox_symm a b
 
 /-- boxes sharing a point intersect (any boxes) -/
 theorem Box2_intersectsBox_of_common_point (a b : Box2 α) (h : ∃ p, Box2.Mem p a ∧ Box2.Mem p b) :
     Gen.Box2.intersectsBox a b = true := Box2.intersectsBox_of_common a b h
+
+/-- what `intersects(box)` computes for ALL boxes (the code as it is: no emptiness test): per-axis overlap of the
+min/max pairs.  [This statement describes the defect below; it stops holding when the code is repaired.] -/
+theorem Box2_intersectsBox_iff_axes (a b : Box2 α) :
+    Gen.Box2.intersectsBox a b = true ↔ (b.min.x ≤ a.max.x ∧ a.min.x ≤ b.max.x) ∧ (b.min.y ≤ a.max.y ∧ a.min.y ≤ b.max.y) := by
+  simp only [Gen.Box2.intersectsBox, ite_false_iff, ite_false'_iff, not_lt, not_le, and_assoc, and_true] <;> tauto
 
 /- FULL STRENGTH (property text: "true exactly when the two sets share a point"):
      ∀ a b, Gen.Box2.intersectsBox a b = true ↔ ∃ p, Box2.Mem p a ∧ Box2.Mem p b
@@ -258,7 +270,7 @@ theorem Box2_intersectsBox_of_common_point (a b : Box2 α) (h : ∃ p, Box2.Mem 
    Proved: the statement for non-empty boxes (`_partial`) and the exact region where the code is wrong. -/
 theorem Box2_intersectsBox_iff_partial (a b : Box2 α) (ha : ¬ Box2.Inverted a) (hb : ¬ Box2.Inverted b) :
     Gen.Box2.intersectsBox a b = true ↔ ∃ p, Box2.Mem p a ∧ Box2.Mem p b :=
-  ⟨fun h => Box2.common_of_axes a b ha hb ((Box2.intersectsBox_iff_axes a b).1 h), Box2.intersectsBox_of_common a b⟩
+  ⟨fun h => Box2.common_of_axes a b ha hb ((Box2.intersectsBox_iff_axes_of_nonempty a b ha hb).1 h), Box2.intersectsBox_of_common a b⟩
 
 /-- exactly when `intersects(box)` answers `true` although the sets are disjoint: the min/max pairs
 overlap on every axis and one of the boxes is empty -/
@@ -419,12 +431,18 @@ theorem Box3_intersectsPoint_iff (b : Box3 α) (p : V3 α) : Gen.Box3.intersects
   Box3.intersectsPoint_iff b p
 
 /-- `intersects(box)` is symmetric -/
-theorem Box3_intersectsBox_symm (a b : Box3 α) : Gen.Box3.intersectsBox a b = Gen.Box3.intersectsBox b a := by
-  rw [Bool.eq_iff_iff, Box3.intersectsBox_iff_axes, Box3.intersectsBox_iff_axes]; tauto
+theorem Box3_intersectsBox_symm (a b : Box3 α) : Gen.Box3.intersectsBox a b = Gen.Box3.intersectsBox b a :=
+  Box3.intersectsBox_symm a b
 
 /-- boxes sharing a point intersect (any boxes) -/
 theorem Box3_intersectsBox_of_common_point (a b : Box3 α) (h : ∃ p, Box3.Mem p a ∧ Box3.Mem p b) :
     Gen.Box3.intersectsBox a b = true := Box3.intersectsBox_of_common a b h
+
+/-- what `intersects(box)` computes for ALL boxes (the code as it is: no emptiness test): per-axis overlap of the
+min/max pairs.  [This statement describes the defect below; it stops holding when the code is repaired.] -/
+theorem Box3_intersectsBox_iff_axes (a b : Box3 α) :
+    Gen.Box3.intersectsBox a b = true ↔ (b.min.x ≤ a.max.x ∧ a.min.x ≤ b.max.x) ∧ (b.min.y ≤ a.max.y ∧ a.min.y ≤ b.max.y) ∧ (b.min.z ≤ a.max.z ∧ a.min.z ≤ b.max.z) := by
+  simp only [Gen.Box3.intersectsBox, ite_false_iff, ite_false'_iff, not_lt, not_le, and_assoc, and_true] <;> tauto
 
 /- FULL STRENGTH (property text: "true exactly when the two sets share a point"):
      ∀ a b, Gen.Box3.intersectsBox a b = true ↔ ∃ p, Box3.Mem p a ∧ Box3.Mem p b
@@ -433,7 +451,7 @@ theorem Box3_intersectsBox_of_common_point (a b : Box3 α) (h : ∃ p, Box3.Mem 
    Proved: the statement for non-empty boxes (`_partial`) and the exact region where the code is wrong. -/
 theorem Box3_intersectsBox_iff_partial (a b : Box3 α) (ha : ¬ Box3.Inverted a) (hb : ¬ Box3.Inverted b) :
     Gen.Box3.intersectsBox a b = true ↔ ∃ p, Box3.Mem p a ∧ Box3.Mem p b :=
-  ⟨fun h => Box3.common_of_axes a b ha hb ((Box3.intersectsBox_iff_axes a b).1 h), Box3.intersectsBox_of_common a b⟩
+  ⟨fun h => Box3.common_of_axes a b ha hb ((Box3.intersectsBox_iff_axes_of_nonempty a b ha hb).1 h), Box3.intersectsBox_of_common a b⟩
 
 /-- exactly when `intersects(box)` answers `true` although the sets are disjoint: the min/max pairs
 overlap on every axis and one of the boxes is empty -/
@@ -594,12 +612,18 @@ theorem Box4_intersectsPoint_iff (b : Box4 α) (p : V4 α) : Gen.Box4.intersects
   Box4.intersectsPoint_iff b p
 
 /-- `intersects(box)` is symmetric -/
-theorem Box4_intersectsBox_symm (a b : Box4 α) : Gen.Box4.intersectsBox a b = Gen.Box4.intersectsBox b a := by
-  rw [Bool.eq_iff_iff, Box4.intersectsBox_iff_axes, Box4.intersectsBox_iff_axes]; tauto
+theorem Box4_intersectsBox_symm (a b : Box4 α) : Gen.Box4.intersectsBox a b = Gen.Box4.intersectsBox b a :=
+  Box4.intersectsBox_symm a b
 
 /-- boxes sharing a point intersect (any boxes) -/
 theorem Box4_intersectsBox_of_common_point (a b : Box4 α) (h : ∃ p, Box4.Mem p a ∧ Box4.Mem p b) :
     Gen.Box4.intersectsBox a b = true := Box4.intersectsBox_of_common a b h
+
+/-- what `intersects(box)` computes for ALL boxes (the code as it is: no emptiness test): per-axis overlap of the
+min/max pairs.  [This statement describes the defect below; it stops holding when the code is repaired.] -/
+theorem Box4_intersectsBox_iff_axes (a b : Box4 α) :
+    Gen.Box4.intersectsBox a b = true ↔ (b.min.x ≤ a.max.x ∧ a.min.x ≤ b.max.x) ∧ (b.min.y ≤ a.max.y ∧ a.min.y ≤ b.max.y) ∧ (b.min.z ≤ a.max.z ∧ a.min.z ≤ b.max.z) ∧ (b.min.w ≤ a.max.w ∧ a.min.w ≤ b.max.w) := by
+  simp only [Gen.Box4.intersectsBox, ite_false_iff, ite_false'_iff, not_lt, not_le, and_assoc, and_true] <;> tauto
 
 /- FULL STRENGTH (property text: "true exactly when the two sets share a point"):
      ∀ a b, Gen.Box4.intersectsBox a b = true ↔ ∃ p, Box4.Mem p a ∧ Box4.Mem p b
@@ -608,7 +632,7 @@ theorem Box4_intersectsBox_of_common_point (a b : Box4 α) (h : ∃ p, Box4.Mem 
    Proved: the statement for non-empty boxes (`_partial`) and the exact region where the code is wrong. -/
 theorem Box4_intersectsBox_iff_partial (a b : Box4 α) (ha : ¬ Box4.Inverted a) (hb : ¬ Box4.Inverted b) :
     Gen.Box4.intersectsBox a b = true ↔ ∃ p, Box4.Mem p a ∧ Box4.Mem p b :=
-  ⟨fun h => Box4.common_of_axes a b ha hb ((Box4.intersectsBox_iff_axes a b).1 h), Box4.intersectsBox_of_common a b⟩
+  ⟨fun h => Box4.common_of_axes a b ha hb ((Box4.intersectsBox_iff_axes_of_nonempty a b ha hb).1 h), Box4.intersectsBox_of_common a b⟩
 
 /-- exactly when `intersects(box)` answers `true` although the sets are disjoint: the min/max pairs
 overlap on every axis and one of the boxes is empty -/
@@ -779,9 +803,10 @@ theorem Box3_generic_intersectsPoint (b : Box3 α) (p : V3 α) (w : α) :
   rw [Bool.eq_iff_iff, Box4.intersectsPoint_iff, Box3.intersectsPoint_iff]
   simp only [Box4.Mem, Box3.Mem, Box3.lift4, V3.lift4, le_refl, and_self, and_true]
 
+/-- (proved from `*_intersectsBox_iff_axes`, i.e. for the code as it is, empty boxes included) -/
 theorem Box3_generic_intersectsBox (a b : Box3 α) (w : α) :
     Gen.Box4.intersectsBox (Box3.lift4 a w) (Box3.lift4 b w) = Gen.Box3.intersectsBox a b := by
-  rw [Bool.eq_iff_iff, Box4.intersectsBox_iff_axes, Box3.intersectsBox_iff_axes]
+  rw [Bool.eq_iff_iff, Box4_intersectsBox_iff_axes, Box3_intersectsBox_iff_axes]
   simp only [Box3.lift4, V3.lift4, le_refl, and_self, and_true]
 
 theorem Box3_generic_isEmpty (b : Box3 α) (w : α) :
@@ -811,7 +836,7 @@ theorem Box2_generic_intersectsPoint (b : Box2 α) (p : V2 α) (z w : α) :
 
 theorem Box2_generic_intersectsBox (a b : Box2 α) (z w : α) :
     Gen.Box4.intersectsBox (Box2.lift4 a z w) (Box2.lift4 b z w) = Gen.Box2.intersectsBox a b := by
-  rw [Bool.eq_iff_iff, Box4.intersectsBox_iff_axes, Box2.intersectsBox_iff_axes]
+  rw [Bool.eq_iff_iff, Box4_intersectsBox_iff_axes, Box2_intersectsBox_iff_axes]
   simp only [Box2.lift4, V2.lift4, le_refl, and_self, and_true]
 
 theorem Box2_generic_isEmpty (b : Box2 α) (z w : α) :
